@@ -1,0 +1,26 @@
+//go:build verif
+
+package verifhook
+
+import "sync/atomic"
+
+// Yield, when set by a simulation harness, is called at every schedule point with the
+// point's name and the object it belongs to. It is nil by default, so even a binary built
+// with the tag behaves exactly like the untagged one until a harness installs a function.
+var yield atomic.Pointer[func(point string, owner interface{})]
+
+// SetYield installs (or, with nil, removes) the yield function.
+func SetYield(f func(point string, owner interface{})) {
+	if f == nil {
+		yield.Store(nil)
+		return
+	}
+	yield.Store(&f)
+}
+
+// Point is a schedule point. No lock may be held by the caller.
+func Point(point string, owner interface{}) {
+	if f := yield.Load(); f != nil {
+		(*f)(point, owner)
+	}
+}
